@@ -5,6 +5,7 @@ From Coq Require Import List NArith ZArith.
 From BLB Require Import Lib.LTS Raft.Core Raft.Wire Raft.NodeElect Raft.NodeMono Raft.NodeLeader Raft.NodeConf Raft.Election Raft.ElectionFixed Raft.ElectionExample Raft.Mechanisms C02.Proofs.
 From BLB Require Import Raft.LogMatchLists Raft.LogMatchNode Raft.LogMatch Raft.Completeness Raft.LogMatchExample Raft.SMSafetyNode Raft.SMSafety Raft.SMSafetyExample Raft.LeaderSuffix Raft.LeaderSuffixExample Raft.CompletenessAck Raft.CompletenessVote Raft.CompletenessExample Raft.SMSafetyBound Raft.CompletenessCommit Raft.CommitExample.
 From BLB Require Import Raft.Snapshots Raft.SnapCommit Raft.SnapSys Raft.SnapshotExample Raft.MembershipQuorum Raft.MembershipElection Raft.MembershipExample Raft.SnapContig Raft.SnapContigMsgs Raft.SnapContigSys.
+From BLB Require Import Raft.LogMatchNodeS Raft.SnapVirtual Raft.SnapEvents Raft.SnapIndexPos Raft.SnapSystem Raft.SnapSystemExample.
 Import ListNotations.
 Open Scope N_scope.
 
@@ -602,6 +603,158 @@ Theorem log_snapshot_contiguous_nonvacuous :
 Proof. exact Raft.SnapshotExample.log_snapshot_contiguous_nonvacuous. Qed.
 Print Assumptions log_snapshot_contiguous_nonvacuous.
 
+(* ---------------------------------------------------------------- round 5: the four clauses WITH snapshots *)
+(* The alphabet sstepS bm be n: fixed membership (no AddNode / RemoveNode, configurations of n members, one bootstrap membership);
+   deliveries of any message ever sent - AppEnts, responses, votes and InstallSnapshot - to any node any number of times or
+   never; ticks; proposals; SnapshotDone reporting an applied position with its term (followed by the log trim); restarts;
+   a crash after any durable mutation of any event - also between the durable writes of handleSnapshot and of fsmSnapshotDone -
+   followed by newCore with the start-up reconciliation. The logical log of a node is a ghost prefix (the entries its snapshot
+   covers and its log no longer holds) followed by its log; ghost_ok says the ghost assignment fits. *)
+
+(* [FULL] clause 2 with snapshots, over logical logs, for every schedule of the alphabet above: in every reachable state there is a
+   fitting ghost assignment under which two logical logs that hold an entry with the same index and term are identical up to
+   that position *)
+Theorem log_matching_with_snapshots :
+  forall (bm : list nid) (be : N) (σ0 σ : sys) (sched : list sys_event),
+    cinit σ0 -> length bm = length (sy_nodes σ0) ->
+    run sys sys_event (sstepS bm be (length (sy_nodes σ0))) σ0 sched σ ->
+    exists Cf, ghost_ok σ Cf /\
+      forall a b k k' e e', In a (sy_nodes σ) -> In b (sy_nodes σ) ->
+        nth_error (llog Cf a) k = Some e -> nth_error (llog Cf b) k' = Some e' -> e_index e = e_index e' -> e_term e = e_term e' ->
+        k = k' /\ firstn (S k) (llog Cf a) = firstn (S k) (llog Cf b).
+Proof. exact log_matching_with_snapshots_sys. Qed.
+Print Assumptions log_matching_with_snapshots.
+
+(* [FULL] clause 2 with snapshots, ghost-free on the physical logs: entries of two nodes with the same index and term are equal, and so
+   are all entries of smaller index that both logs still hold. Same alphabet *)
+Theorem log_matching_with_snapshots_entries :
+  forall (bm : list nid) (be : N) (σ0 σ : sys) (sched : list sys_event),
+    cinit σ0 -> length bm = length (sy_nodes σ0) ->
+    run sys sys_event (sstepS bm be (length (sy_nodes σ0))) σ0 sched σ ->
+    forall a b e e', In a (sy_nodes σ) -> In b (sy_nodes σ) -> In e (p_log (n_p a)) -> In e' (p_log (n_p b)) ->
+      e_index e = e_index e' -> e_term e = e_term e' ->
+      e = e' /\ forall x y, In x (p_log (n_p a)) -> In y (p_log (n_p b)) -> e_index x = e_index y -> e_index x <= e_index e -> x = y.
+Proof. exact Raft.SnapSystem.log_matching_with_snapshots_entries. Qed.
+Print Assumptions log_matching_with_snapshots_entries.
+
+(* [FULL] clause 3 with snapshots, over logical logs: the first n_commit entries of the logical log of any node at any moment are the
+   first entries of the logical log of every leader of a greater term at any later moment. Same alphabet *)
+Theorem leader_completeness_with_snapshots :
+  forall (bm : list nid) (be : N) (σ0 σ1 σ2 : sys) (sched1 sched2 : list sys_event),
+    cinit σ0 -> length bm = length (sy_nodes σ0) ->
+    run sys sys_event (sstepS bm be (length (sy_nodes σ0))) σ0 sched1 σ1 ->
+    run sys sys_event (sstepS bm be (length (sy_nodes σ0))) σ1 sched2 σ2 ->
+    exists Cf1 Cf2, ghost_ok σ1 Cf1 /\ ghost_ok σ2 Cf2 /\
+      forall a b, In a (sy_nodes σ1) -> In b (sy_nodes σ2) -> n_role b = Leader -> p_term (n_p a) < p_term (n_p b) ->
+        (N.to_nat (n_commit a) <= length (llog Cf1 a))%nat /\
+        firstn (N.to_nat (n_commit a)) (llog Cf2 b) = firstn (N.to_nat (n_commit a)) (llog Cf1 a).
+Proof. exact leader_completeness_with_snapshots_sys. Qed.
+Print Assumptions leader_completeness_with_snapshots.
+
+(* [FULL] clause 3 with snapshots, ghost-free: a committed entry is never lost - every leader of a later term holds it in its log or has
+   it under its snapshot; and the position a snapshot names is held by every later leader with the snapshot's term, or is
+   under that leader's snapshot. Same alphabet *)
+Theorem leader_completeness_with_snapshots_entries :
+  forall (bm : list nid) (be : N) (σ0 σ1 σ2 : sys) (sched1 sched2 : list sys_event),
+    cinit σ0 -> length bm = length (sy_nodes σ0) ->
+    run sys sys_event (sstepS bm be (length (sy_nodes σ0))) σ0 sched1 σ1 ->
+    run sys sys_event (sstepS bm be (length (sy_nodes σ0))) σ1 sched2 σ2 ->
+    forall a b, In a (sy_nodes σ1) -> In b (sy_nodes σ2) -> n_role b = Leader -> p_term (n_p a) < p_term (n_p b) ->
+      (forall e, In e (p_log (n_p a)) -> e_index e <= n_commit a ->
+         In e (p_log (n_p b)) \/ exists mb, p_snap (n_p b) = Some mb /\ e_index e <= sn_index mb) /\
+      (forall ma, p_snap (n_p a) = Some ma ->
+         (exists e, In e (p_log (n_p b)) /\ e_index e = sn_index ma /\ e_term e = sn_term ma) \/
+         (exists mb, p_snap (n_p b) = Some mb /\ sn_index ma <= sn_index mb)).
+Proof. exact Raft.SnapSystem.leader_completeness_with_snapshots_entries. Qed.
+Print Assumptions leader_completeness_with_snapshots_entries.
+
+(* [FULL] clause 4 with snapshots: entries handed to the state machines of any two nodes at any two moments with the same index are
+   equal (a snapshot installation or restore hands no entries). Same alphabet *)
+Theorem state_machine_safety_with_snapshots :
+  forall (bm : list nid) (be : N) (σ0 σ1 σ2 : sys) (sched1 sched2 : list sys_event),
+    cinit σ0 -> length bm = length (sy_nodes σ0) ->
+    run sys sys_event (sstepS bm be (length (sy_nodes σ0))) σ0 sched1 σ1 ->
+    run sys sys_event (sstepS bm be (length (sy_nodes σ0))) σ1 sched2 σ2 ->
+    forall a b x y, In a (sy_nodes σ1) -> In b (sy_nodes σ2) -> In x (n_commits a) -> In y (n_commits b) -> e_index x = e_index y -> x = y.
+Proof. exact state_machine_safety_with_snapshots_sys. Qed.
+Print Assumptions state_machine_safety_with_snapshots.
+
+(* [FULL] a committed entry is never truncated, with snapshots: no step changes the first n_commit entries of the touched node's logical
+   log, and after the step the node still holds each committed entry in its log or under its snapshot. Same alphabet *)
+Theorem committed_entry_never_truncated_with_snapshots :
+  forall (bm : list nid) (be : N) (σ0 σ σ' : sys) (sched : list sys_event) (e : sys_event),
+    cinit σ0 -> length bm = length (sy_nodes σ0) ->
+    run sys sys_event (sstepS bm be (length (sy_nodes σ0))) σ0 sched σ ->
+    sstepS bm be (length (sy_nodes σ0)) σ e σ' ->
+    exists Cf Cf', ghost_ok σ Cf /\ ghost_ok σ' Cf' /\
+      forall a a', In a (sy_nodes σ) -> In a' (sy_nodes σ') -> n_id a' = n_id a ->
+        firstn (N.to_nat (n_commit a)) (llog Cf' a') = firstn (N.to_nat (n_commit a)) (llog Cf a) /\
+        forall x, In x (p_log (n_p a)) -> e_index x <= n_commit a ->
+          In x (p_log (n_p a')) \/ exists m', p_snap (n_p a') = Some m' /\ e_index x <= sn_index m'.
+Proof. exact committed_entry_never_truncated_with_snapshots_sys. Qed.
+Print Assumptions committed_entry_never_truncated_with_snapshots.
+
+(* [PARTIAL] the node-level step summary behind them, for a store with snapshot seen through its ghost prefix C: every event except
+   SnapshotDone, AddNode, RemoveNode and InstallSnapshot delivery, every crash point; under the completeness premise premE (a
+   delivered AppEnts of a term not below the node's agrees with the logical log wherever the code relies on the snapshot
+   instead of comparing terms) the virtual node takes a step of the snapshot-free summary, and the store keeps its shape *)
+Theorem step_summary_with_snapshot_partial :
+  forall C s ev k crashed st s',
+    base (vn C s) -> shape C (n_p s) (n_commit s) -> evok4 ev -> premE C s ev ->
+    run_event_crash (settle s) ev k = Ret (crashed, st, s') ->
+    inv (with_budget (settle (vn C s)) k) (inp_of ev) (boot_of ev) (rt_of ev) (vq_of ev) (lq_of (vn C s)) (dc_of ev) (rsp_of ev) (vn C s') /\
+    shape C (n_p s') (n_commit s').
+Proof. exact run_event_crash_lm_S. Qed.
+Print Assumptions step_summary_with_snapshot_partial.
+
+(* [PARTIAL] the mutual dependency of log matching and leader completeness, as one lemma over the invariants of a state: a leader-log record
+   of a term not below a node's term agrees with that node's committed prefix wherever the record is defined, and some
+   record of that term comparable with it is at least as long as the committed prefix. This is what makes the AppEnts
+   consistency check that answers yes inside the snapshot without comparing terms sound *)
+Theorem committed_prefix_agrees_with_later_records_partial :
+  forall bm be σ G A CL GR i s U j l,
+    cminv bm be σ G A CL GR -> get_node i (sy_nodes σ) = Some s -> In (U, j, l) G -> p_term (n_p s) <= U ->
+    (forall k e, (k < N.to_nat (n_commit s))%nat -> nth_error l k = Some e -> nth_error (p_log (n_p s)) k = Some e) /\
+    (exists j' l', In (U, j', l') G /\ (N.to_nat (n_commit s) <= length l')%nat /\ comparable l l').
+Proof. exact agree_committed. Qed.
+Print Assumptions committed_prefix_agrees_with_later_records_partial.
+
+(* [PARTIAL] every InstallSnapshot a node emits names a snapshot index of at least 1, for every event and crash point, given that the snapshot
+   it holds, the delivered InstallSnapshot and a reported SnapshotDone do *)
+Theorem emitted_install_snapshot_index_positive_partial :
+  forall s ev k crashed st s',
+    snap1 (n_p s) ->
+    (forall m, ev = EDeliver m -> isq1 m) -> (forall m, ev = ESnapDone m -> 1 <= sn_index m) ->
+    run_event_crash (settle s) ev k = Ret (crashed, st, s') -> Forall isq1 (n_msgs s').
+Proof. exact emitted_install_snapshot_index_positive. Qed.
+Print Assumptions emitted_install_snapshot_index_positive_partial.
+
+(* [FULL] non-vacuity of the theorems with snapshots: an 18-event run of three nodes satisfies every hypothesis; the leader commits two
+   entries, snapshots and trims, ships InstallSnapshot to a follower that has nothing, that follower installs it, times out and
+   is elected leader of term 3 with an empty log; the old leader's committed entries are under the new leader's snapshot *)
+Theorem with_snapshots_nonvacuous :
+  cinit t0 /\ length [1; 2; 3] = length (sy_nodes t0) /\
+  run sys sys_event (sstepS [1; 2; 3] 5 (length (sy_nodes t0))) t0 sched_a t10 /\
+  run sys sys_event (sstepS [1; 2; 3] 5 (length (sy_nodes t0))) t10 sched_b x18 /\
+  (exists li lt c, m_body u13 = InstallSnap li lt c) /\ In (3, EDeliver u13, 0) sched_b /\
+  let a := nth 0 (sy_nodes t10) (mk_node 1) in let b := nth 2 (sy_nodes x18) (mk_node 1) in
+  In a (sy_nodes t10) /\ In b (sy_nodes x18) /\ n_role b = Leader /\ p_term (n_p a) < p_term (n_p b) /\
+  n_commit a = 2 /\ map e_index (p_log (n_p a)) = [1; 2] /\ p_snap (n_p a) = None /\
+  p_log (n_p b) = [] /\ p_snap (n_p b) = Some snapm.
+Proof. exact Raft.SnapSystemExample.with_snapshots_nonvacuous. Qed.
+Print Assumptions with_snapshots_nonvacuous.
+
+(* [FULL] non-vacuity of the crash case: the same InstallSnapshot delivered with a crash right after the snapshot commit of
+   handleSnapshot, before the log is discarded, is a step of the alphabet; after newCore node 3 holds the snapshot, an empty
+   log, commit index 2, and nothing was sent *)
+Theorem crash_inside_install_snapshot_nonvacuous :
+  run sys sys_event (sstepS [1; 2; 3] 5 3) t10 [(1, ESnapDone snapm, 0); (3, EDeliver u11, 0); (1, EDeliver u12, 0); (3, EDeliver u13, 1)] x14c /\
+  (exists st s', run_event_crash (settle (nth 2 (sy_nodes t13) (mk_node 1))) (EDeliver u13) 1 = Ret (true, st, s')) /\
+  let b := nth 2 (sy_nodes x14c) (mk_node 1) in
+  p_snap (n_p b) = Some snapm /\ p_log (n_p b) = [] /\ n_commit b = 2 /\ length (sy_soup x14c) = length (sy_soup t13).
+Proof. exact crash_inside_install_snapshot. Qed.
+Print Assumptions crash_inside_install_snapshot_nonvacuous.
+
 (* ---------------------------------------------------------------- round 4: single-server membership change *)
 
 (* [PARTIAL] quorums of Members and Members plus one intersect: for member lists C1 included in C2 with one more element, a majority of C1
@@ -698,15 +851,9 @@ Proof. exact Raft.MembershipExample.add_node_quorums_nonvacuous. Qed.
 Print Assumptions add_node_quorums_nonvacuous.
 
 (* NOT YET PROVED (statements kept visible; listed in props/C02.json not_yet_proved):
-   log_matching_with_snapshots, leader_completeness_with_snapshots, state_machine_safety_with_snapshots and
-   committed_entry_never_truncated_with_snapshots over logical logs (snapshot-covered committed prefix ++ physical log):
-   with a snapshot hasEntry accepts a previous index without comparing terms, so log matching and leader completeness
-   have to be proved by one mutual induction, over a node-level pass redone with the snapshot cases (the proved pass
-   assumes no snapshot and a log starting at index 1); proved so far, under all events and schedules: a snapshot never
-   gets ahead of the commit index; log + snapshot stay index-contiguous (across the start-up reconciliation too); the
-   entry at a legitimate first snapshot position is held by all later leaders.
    election_safety_membership_change for the changes between 2k-1 and 2k members (the quorum size changes): needs leader
    completeness with varying configurations (a candidate holding a stale configuration is stopped only by the up-to-date
    test) and the invariant that counted votes come from members; hence also the other three clauses across
-   AddNode/RemoveNode. Proved so far: adjacent quorums intersect, one change at a time, the quorum-preserving changes.
+   AddNode/RemoveNode (with or without snapshots). Proved so far: adjacent quorums intersect, one change at a time, the
+   quorum-preserving changes.
    On the real code all four clauses are evaluated after every event by the monitors of the Go simulation. *)
